@@ -137,12 +137,12 @@ impl SourceMapHermes {
         if function_maps.len() >= mapping.len() {
             function_maps = mapping
                 .iter()
-                .map(|idx| function_maps[*idx as usize].take())
+                .map(|idx| function_maps.get_mut(*idx as usize).and_then(Option::take))
                 .collect();
             raw_facebook_sources = raw_facebook_sources.map(|mut sources| {
                 mapping
                     .into_iter()
-                    .map(|idx| sources[idx as usize].take())
+                    .map(|idx| sources.get_mut(idx as usize).and_then(Option::take))
                     .collect()
             });
         }
